@@ -35,6 +35,24 @@ type class struct {
 
 // craft builds an encrypted datagram of the class for conversation conv (aes-128 CFB + CRC32, FEC framing 2/1).
 func craft(rng *rand.Rand, su *refcrypt.Suite, c class, conv uint32) []byte {
+	body := craftBody(rng, c, conv)
+	plain := make([]byte, 20+len(body))
+	rng.Read(plain[:16])
+	copy(plain[20:], body)
+	binary.LittleEndian.PutUint32(plain[16:], crc32.ChecksumIEEE(plain[20:]))
+	if c.Integrity == "bad" {
+		plain[16] ^= 0x40
+	}
+	out := make([]byte, len(plain))
+	su.RefEnc(key[:su.KeyLen], out, plain)
+	if c.Len == "too-short-for-integrity" {
+		out = out[:rng.Intn(20)]
+	}
+	return out
+}
+
+// craftBody builds the frame of the class (what the cipher layer wraps).
+func craftBody(rng *rand.Rand, c class, conv uint32) []byte {
 	sn := uint32(0)
 	if !c.Sn0 {
 		sn = 1 + uint32(rng.Intn(1000))
@@ -75,19 +93,7 @@ func craft(rng *rand.Rand, su *refcrypt.Suite, c class, conv uint32) []byte {
 	if c.Len == "too-short-for-any-frame" {
 		body = body[:rng.Intn(12)]
 	}
-	plain := make([]byte, 20+len(body))
-	rng.Read(plain[:16])
-	copy(plain[20:], body)
-	binary.LittleEndian.PutUint32(plain[16:], crc32.ChecksumIEEE(plain[20:]))
-	if c.Integrity == "bad" {
-		plain[16] ^= 0x40
-	}
-	out := make([]byte, len(plain))
-	su.RefEnc(key[:su.KeyLen], out, plain)
-	if c.Len == "too-short-for-integrity" {
-		out = out[:rng.Intn(20)]
-	}
-	return out
+	return body
 }
 
 type summary struct {
@@ -191,4 +197,137 @@ func TestListenerRouting(t *testing.T) {
 	vh.Must(tf.Close())
 	sum.Traces, sum.Lines = tf.N, tf.L
 	vh.WriteJSON(filepath.Join(out, "list_routing.json"), sum)
+}
+
+// seal wraps a frame body the way a session with the suite's cipher kind would (reference implementations only).
+func seal(rng *rand.Rand, su *refcrypt.Suite, body []byte, badIntegrity bool, cutIntegrity bool) []byte {
+	switch su.Kind {
+	case "nil":
+		return body
+	case "aead":
+		a, err := su.AEAD(key[:su.KeyLen])
+		vh.Must(err)
+		nonce := make([]byte, a.NonceSize())
+		rng.Read(nonce)
+		out := a.Seal(nonce, nonce, body, nil)
+		if badIntegrity {
+			out[rng.Intn(len(out))] ^= 0x10
+		}
+		if cutIntegrity {
+			out = out[:rng.Intn(a.NonceSize()+a.Overhead())]
+		}
+		return out
+	default:
+		plain := make([]byte, 20+len(body))
+		rng.Read(plain[:16])
+		copy(plain[20:], body)
+		binary.LittleEndian.PutUint32(plain[16:], crc32.ChecksumIEEE(plain[20:]))
+		if badIntegrity {
+			plain[16] ^= 0x40
+		}
+		out := make([]byte, len(plain))
+		su.RefEnc(key[:su.KeyLen], out, plain)
+		if cutIntegrity {
+			out = out[:rng.Intn(20)]
+		}
+		return out
+	}
+}
+
+// TestSessionRouting binds FrameRouting!SessionEffect to UDPSession.packetInput / kcpInput: crafted datagrams of every abstract
+// class (own / another conversation id, valid or failing integrity, every frame kind, cut at every boundary) arrive at a real
+// dialled session from its peer's address, for the three cipher kinds, with and without an out-of-band handler. The exits reported
+// by the hook, whether the handler ran, and whether the deep digest of the session changed are validated by TLC
+// (SessionRouteTrace: conformance as drift; C19 / C06 monitors as verdicts).
+func TestSessionRouting(t *testing.T) {
+	out := vh.OutDir(t)
+	rng := rand.New(rand.NewSource(vh.Seed()*32452843 + 13))
+	steps := vh.EnvInt("LIST_STEPS", 120) * 2
+	tf, err := vh.OpenTraceFile(filepath.Join(out, "sess_routing.ndjson"))
+	vh.Must(err)
+	sum := &summary{Kinds: map[string]int{}}
+	lens := []string{"ok", "ok", "ok", "ok", "ok", "kcp-header-cut", "too-short-for-any-frame", "too-short-for-integrity"}
+	for ri, suite := range []string{"nil", "aes-128", "aes-gcm", "salsa20", "aes-128", "aes-gcm"} {
+		su := refcrypt.ByName(suite)
+		ck := map[string]string{"nil": "nil", "aead": "aead"}[su.Kind]
+		if ck == "" {
+			ck = "crc"
+		}
+		handler := ri%2 == 0 || ri >= 4
+		if ri == 0 {
+			handler = true
+		}
+		vh.Bubble(t, 4242, 2, func(e *vh.Env) {
+			tr := &vh.Trace{}
+			cc, _ := e.Hub.Listen("10.0.0.2:2000")
+			pc, _ := e.Hub.Listen("10.0.0.1:1000") // the peer's address: nobody listens, datagrams sent to it vanish
+			var block kcp.BlockCrypt
+			if su.Kind != "nil" {
+				block, err = su.New(key[:su.KeyLen])
+				vh.Must(err)
+			}
+			const conv = 11
+			s, err := kcp.NewConn3(conv, pc.LocalAddr(), block, 2, 1, cc)
+			vh.Must(err)
+			var mu sync.Mutex
+			var exits []int
+			handled := 0
+			kcp.VerifSetSink(func(ev kcp.VerifEvent) {
+				if ev.Kind == "s.in" {
+					mu.Lock()
+					exits = append(exits, int(ev.A))
+					mu.Unlock()
+				}
+			})
+			defer kcp.VerifSetSink(nil)
+			if handler {
+				s.SetOOBHandler(func([]byte) { mu.Lock(); handled++; mu.Unlock() })
+			}
+			for i := 0; i < steps; i++ {
+				c := class{Len: lens[rng.Intn(len(lens))], Integrity: []string{"ok", "ok", "ok", "bad"}[rng.Intn(4)],
+					Flag: []string{"data", "parity", "oob", "oob", "kcp"}[rng.Intn(5)], Sn0: rng.Intn(2) == 0}
+				if c.Len == "kcp-header-cut" && (c.Flag == "parity" || c.Flag == "oob") {
+					c.Len = "ok"
+				}
+				if su.Kind == "nil" {
+					c.Integrity = "ok" // nothing to fail
+					if c.Len == "too-short-for-integrity" {
+						c.Len = "too-short-for-any-frame"
+					}
+				}
+				cv, cvc := uint32(conv), "match"
+				if rng.Intn(3) == 0 {
+					cv, cvc = conv+1+uint32(rng.Intn(5)), "other"
+				}
+				// the frame body as craft() builds it, then sealed for this cipher kind
+				body := craftBody(rng, c, cv)
+				dg := seal(rng, su, body, c.Integrity == "bad", c.Len == "too-short-for-integrity")
+				synctest.Wait()
+				before := s.VerifDigest()
+				mu.Lock()
+				exits, handled = nil, 0
+				mu.Unlock()
+				e.Hub.Inject("10.0.0.1:1000", "10.0.0.2:2000", dg)
+				synctest.Wait()
+				after := s.VerifDigest()
+				mu.Lock()
+				ex := append([]int{}, exits...)
+				h := handled > 0
+				mu.Unlock()
+				tr.Add(map[string]any{"ev": "spkt", "len": c.Len, "integrity": c.Integrity, "flag": c.Flag, "sn0": c.Sn0, "conv": cvc, "exits": ex,
+					"handled": h, "same": before == after})
+				sum.Kinds[fmt.Sprintf("%s %v", ck, ex)]++
+				sum.Events++
+			}
+			s.Close()
+			cc.Close()
+			pc.Close()
+			tf.WriteTrace(map[string]any{"src": fmt.Sprintf("sessrouting-%s-%v", suite, handler), "ck": ck, "handler": handler}, tr)
+			sum.Runs++
+			sum.Nontrivial++
+		})
+	}
+	vh.Must(tf.Close())
+	sum.Traces, sum.Lines = tf.N, tf.L
+	vh.WriteJSON(filepath.Join(out, "sess_routing.json"), sum)
 }
